@@ -95,8 +95,9 @@ def main():
                             "encode('>') must have equal length, each scalar segment (per the spec's segment map) byte-reversed, "
                             "every padding byte zero in both; plus the model correspondence. C++ stage: objects decoded from canonical bytes by the compiled generated codec, their encode<little>()/encode<big>() vectors checked by the same mirror oracle and encode() [native] == encode<little>(). distinct_nontrivial as in C01.")
     chk.sample({"schema": S.to_prophy(cases[len(cases) // 3][2]), "value": jobs[len(cases) // 3]["values"][-1]})
-    chk.assumptions += ["the theorem C19_python is about the Python encoder model; the C++ vector encoders are decided by the "
-                        "metamorphic run only (g++ 12, x86-64, little-endian host)"]
+    chk.assumptions += ["C19_python is about the Python encoder model, C19_cpp about the C++ encoder model CppFull.cpp_encode (tied "
+                        "to the compiled code by the C03 check's cpp_enc_case and by this check's metamorphic run: g++ 12, x86-64, "
+                        "little-endian host); encode() [native] == encode<little>() is checked on the compiled code only"]
     return chk.finish()
 
 
